@@ -156,10 +156,11 @@ class Endpoint:
 class RawClient:
     """raw HTTP client with a persistent connection"""
 
-    def __init__(self, node_ip, dst, timeout=10.0):
+    def __init__(self, node_ip, dst, timeout=10.0, tls=None):
         self.node_ip = node_ip
         self.dst = dst
         self.timeout = timeout
+        self.tls = tls  # a (simulated) TLS client context: the connection is wrapped with it
         self.sock = None
         self.buf = bytearray()
         self.resp_sent = None
@@ -169,6 +170,8 @@ class RawClient:
         S.SCHED.current.node = self.node_ip
         try:
             self.sock = N.create_connection(self.dst, timeout=self.timeout)
+            if self.tls is not None:
+                self.sock = self.tls.wrap_socket(self.sock)
         finally:
             S.SCHED.current.node = prev
         self.buf = bytearray()
